@@ -155,11 +155,13 @@ def native_C04(tier, seed):
             A = lambda v: xp.asarray(np.asarray(v), dtype=dt)  # noqa: E731
             N = lambda v: np.asarray(v, dtype=float)  # noqa: E731
             # --- bounded maps over many orders of magnitude
-            for scale in ([1e-3, 1.0, 1e3, 1e6] if dtn == "float64" else [1e-2, 1.0, 1e2]):
+            for scale in ([1e-5, 1e-3, 1.0, 1e3, 1e6] if dtn == "float64" else [1e-2, 1.0, 1e2]):
                 lo = np.array([-1.0, 0.0, 2.0]) * scale
                 hi = lo + np.array([1.0, 3.0, 0.5]) * scale
                 margin = 1e-3
                 u = rng.uniform(margin, 1 - margin, size=(40, 3))
+                # points close to the bounds in *relative* terms (the documented margin is eps times the width, whatever the width)
+                u[:3] = np.array([[1.5e-3, 0.5, 1 - 1.5e-3], [1 - 1.5e-3, 1.5e-3, 0.5], [0.5, 1 - 1.5e-3, 1.5e-3]])
                 X = lo + u * (hi - lo)
                 for cls in (LogitTransform, ProbitTransform):
                     cases += 1
